@@ -558,14 +558,18 @@ func conditions(thorough bool) []*cond {
 					continue
 				}
 				add("atom(x)&&atom(y)", and{a, b}, x, y)
-				add("atom(x)||atom(y)", or{a, b}, x, y)
 				add("atom(x)||!atom(y)", or{a, not{b}}, x, y)
 				if thorough {
+					add("atom(x)||atom(y)", or{a, b}, x, y)
 					add("!atom(x)&&atom(y)", and{not{a}, b}, x, y)
 				}
 			}
-			add("(x==y)||atom(x)", or{eqPar{"x", "y", false}, a}, x, y)
-			add("(x==y)&&atom(x)", and{eqPar{"x", "y", false}, a}, x, y)
+			if thorough || i == 0 {
+				add("(x==y)||atom(x)", or{eqPar{"x", "y", false}, a}, x, y)
+			}
+			if thorough {
+				add("(x==y)&&atom(x)", and{eqPar{"x", "y", false}, a}, x, y)
+			}
 		}
 	}
 	if thorough {
